@@ -61,6 +61,10 @@ type DeepT struct {
 	St   Nest
 	PSt  *Nest
 	I    interface{}
+	SA   [][2]*Node          // containers of arrays of references
+	SAS  [][1][]int
+	MA   map[string][2]*Node
+	AA   [2][1]*Node
 }
 
 func genNode(r *rand.Rand, depth int) *Node {
@@ -131,6 +135,16 @@ func genDeep(r *rand.Rand) *DeepT {
 	if r.Intn(3) == 0 {
 		d.I = "text"
 	}
+	if r.Intn(3) > 0 {
+		d.SA = [][2]*Node{{genNode(r, 2), genNode(r, 1)}, {nil, genNode(r, 1)}}
+	}
+	if r.Intn(3) > 0 {
+		d.SAS = [][1][]int{{genInts(r)}, {genInts(r)}}
+	}
+	if r.Intn(2) == 0 {
+		d.MA = map[string][2]*Node{"a": {genNode(r, 1), genNode(r, 2)}}
+	}
+	d.AA = [2][1]*Node{{genNode(r, 1)}, {genNode(r, 2)}}
 	return d
 }
 
@@ -216,6 +230,19 @@ func scribble(d *DeepT) {
 	}
 	scribbleNest(&d.St)
 	scribbleNest(d.PSt)
+	for i := range d.SA {
+		scribbleNode(d.SA[i][0])
+		scribbleNode(d.SA[i][1])
+	}
+	for i := range d.SAS {
+		scribbleInts(d.SAS[i][0])
+	}
+	for _, a := range d.MA {
+		scribbleNode(a[0])
+		scribbleNode(a[1])
+	}
+	scribbleNode(d.AA[0][0])
+	scribbleNode(d.AA[1][0])
 }
 
 func snap(d *DeepT) string {
@@ -369,6 +396,27 @@ func runAlias(root string, seed int64, n int) {
 					fail("second handle get: %v", err)
 				} else if g4 := get(); g4 != nil && !reflect.DeepEqual(stripItem(f.(*DeepT)), stripItem(g4)) {
 					fail("cached read differs from the file round trip:\n   file   %s\n   cached %s", snap(f.(*DeepT)), snap(g4))
+				}
+			}
+			// a read that MISSES the cache (new handle on the same directory): what it returns must
+			// not be the cache entry itself
+			if !async && i%3 == 0 {
+				db.Close()
+				db = sod.Open(dir)
+				if m1 := get(); m1 != nil {
+					if got := snap(m1); got != want {
+						fail("first read through a new handle differs from the stored value:\n   stored %s\n   read   %s", want, got)
+					}
+					scribble(m1)
+					m1.A = -777
+					if m2 := get(); m2 != nil {
+						if got := snap(m2); got != want {
+							fail("mutating the object returned by a cache-missing read changed what the next read returns:\n   stored %s\n   read   %s", want, got)
+						}
+						if sh := shared(m1, m2); len(sh) > 0 {
+							fail("a cache-missing read shares memory with the next read: %v", sh)
+						}
+					}
 				}
 			}
 			// All / iteration also hand out private copies
